@@ -159,7 +159,7 @@ def main(tier, seed):
     t0 = time.time()
     rep = C.Reporter(PID, tier, seed)
     C.build(['core'])
-    n = 2500 if tier == 'quick' else 30000
+    n = 2500 if tier == 'quick' else 120000
     rundir = C.mktmp(PID)
     _RUN.update(tier=tier, seed=seed, dir=rundir)
     results = C.pmap(_case, list(range(n)), chunksize=4, stop_after_bad=25,
